@@ -1,4 +1,5 @@
 import RxnModel.Proofs.CkptInv
+import RxnModel.Proofs.CkptFiles
 /-! `Inv` is preserved by every action of the checkpointing system (helper for C08). -/
 namespace Rxn.Ckpt
 open Rxn Rxn.Lsm
@@ -74,6 +75,28 @@ theorem inv_step (s s' : State) (a : Act) (hi : Inv s) (h : step s a = some s') 
         subst h
         exact hi.congr rfl rfl rfl
   | retain ids =>
+    simp only [step] at h
+    split at h
+    · cases h
+    · split at h
+      · cases h
+      · simp only [Option.some.injEq] at h
+        subst h
+        exact hi.congr rfl rfl rfl
+  | saveList =>
+    simp only [step] at h
+    split at h
+    · cases h
+    · simp only [Option.some.injEq] at h
+      subst h
+      exact hi.congr rfl rfl rfl
+  | destroy =>
+    simp only [step] at h
+    split at h
+    · cases h
+    · obtain ⟨a, b, c, _⟩ := destroyOne_same h
+      exact hi.congr a b c
+  | orphan id run =>
     simp only [step] at h
     split at h
     · cases h
